@@ -291,6 +291,8 @@ class FuncInfo(object):
 #   C8  `return any(E for x in it if c)`  ->  `for x in it: if c and E: return True`
 #       followed by `return False` (dually for all()): the quantifier and the
 #       early-return loop are the same thing to every rule
+#   C9  `x = A if c else B` / `return A if c else B`     ->  the if statement
+#       (so that the condition is a test atom of the flow graph)
 #   C6  `t = E` immediately followed by a statement in which t (bound once, read
 #       once in the function) is the first thing evaluated apart from plain
 #       name / attribute / constant loads                 ->  E substituted for t
@@ -370,6 +372,10 @@ def _first_use_expr(st):
     return st.test
   if isinstance(st, ast.Raise):
     return st.exc
+  if isinstance(st, ast.For):
+    return st.iter  # evaluated once, before the loop
+  if isinstance(st, ast.With) and st.items:
+    return st.items[0].context_expr
   return None
 
 
@@ -416,6 +422,10 @@ def _inline_temp(name, value, st):
       st.test = value
     elif isinstance(st, ast.Raise):
       st.exc = value
+    elif isinstance(st, ast.For):
+      st.iter = value
+    elif isinstance(st, ast.With):
+      st.items[0].context_expr = value
     return True
   p = parent_of[id(target)]
   for field, val in ast.iter_fields(p):
@@ -561,7 +571,30 @@ def _expand_quantifier_returns(fn):
         i += 1
 
 
+def _expand_conditional_expressions(fn):
+  for parent in ast.walk(fn):
+    for blk in _canon_blocks(parent):
+      for i, st in enumerate(blk):
+        v = getattr(st, 'value', None)
+        if not isinstance(v, ast.IfExp):
+          continue
+        if isinstance(st, ast.Return):
+          a, b = ast.Return(value=v.body), ast.Return(value=v.orelse)
+        elif isinstance(st, ast.Assign) and len(st.targets) == 1 and isinstance(
+            st.targets[0], ast.Name):
+          a = ast.Assign(targets=[st.targets[0]], value=v.body)
+          b = ast.Assign(targets=[copy.deepcopy(st.targets[0])],
+                         value=v.orelse)
+        else:
+          continue
+        new = ast.If(test=v.test, body=[a], orelse=[b])
+        for n in (new, a, b):
+          ast.copy_location(n, st)
+        blk[i] = new
+
+
 def _canon_function(fn):
+  _expand_conditional_expressions(fn)
   _expand_quantifier_returns(fn)
   _propagate_aliases(fn)
   loads, stores = _name_uses(fn)
@@ -1162,3 +1195,24 @@ def finish(report, decides, does_not_decide):
     print('VIOLATION property=%s replay=%s' % (report.prop, rp))
     code = EXIT_VIOLATION
   return code
+
+
+def repeated_by_loop(node):
+  """True if node is evaluated once per iteration of an enclosing loop of its
+  function (inside the body / else of a for, or anywhere but the else of a
+  while); the iterable of a `for` is evaluated once and does not count."""
+  prev = node
+  for p in parents(node):
+    if isinstance(p, (ast.FunctionDef, ast.AsyncFunctionDef, ast.Lambda)):
+      return False
+    if isinstance(p, ast.For) and prev is not p.iter and prev is not p.target:
+      return True
+    if isinstance(p, ast.While):
+      return True
+    if isinstance(p, (ast.ListComp, ast.SetComp, ast.DictComp,
+                      ast.GeneratorExp)):
+      gen0 = p.generators[0] if p.generators else None
+      if not (gen0 is not None and prev is gen0):
+        return True
+    prev = p
+  return False
